@@ -1359,8 +1359,9 @@ example (vm : CoreVM.VM) (flowId : String) (args : List (String × Val))
 
 /-- every refined CoreVM step (`Refine.RefinedStep`: outermost `abortFlow` / `finishFlow`; the `EndScope`, `BeginScope`,
     `start_new_flow_instance`-label and effect-free elements of `slideStep`; `StopFlow` / `FinishFlow(flow_instance_uid=…)` and
-    non-creating `StartFlow` processing) IS at most one operation of the Lifetime machine (`abort`, `finish`, `endScope`, `label`,
-    `reactivate`, `frame`) on the abstraction -/
+    non-creating `StartFlow` processing; `setFlowStatus` along the status order; `updateActionStatusByEvent` for an admissible
+    action event) IS at most one operation of the Lifetime machine (`abort`, `finish`, `endScope`, `label`, `reactivate`, `frame`,
+    `status`, `event`) on the abstraction -/
 theorem corevm_refined_step_is_op (hν : Function.Injective ν) (hφ : Function.Injective φ) (vm vm' : CoreVM.VM) (hw : Refine.WF vm)
     (h : Refine.RefinedStep ν φ vm vm') :
     Refine.WF vm' ∧ ∃ ops : List IOp, ops.length ≤ 1 ∧ (∀ op ∈ ops, Refine.Covered op) ∧
